@@ -7,7 +7,7 @@
      ser        `json_syntax::Serializer` with SerializeArray / SerializeMap /
                 StringNumberSerializer on those events
      to_value   = ser o emit                       (json_syntax::to_value(&v))
-     events     `impl Deserializer for Value` (deserialize_any) + `&Number as Deserializer`
+     events     `impl Deserializer for Value` (deserialize_any, visit_number)
      events_sj  serde_json's streaming Deserializer over a text denoting the value
                 (only its number classification is modelled; tokenising and unescaping are not)
      de_value   `impl Deserialize for Value`: ValueVisitor over the events
@@ -15,16 +15,19 @@
    Part 2 (C18)  src/convert/serde_json.rs, json-number src/serde_json.rs:
      from_sj    Value::from_serde_json,  into_sj  Value::into_serde_json.
 
-   Dependencies that are modelled, not verified, are section variables:
-     lossy     Number::as_f64_lossy (lexical, lossy option)
+   Decimal -> double conversions are correctly rounded and modelled by the reference
+   Spec.NumSpelling.dbl: `str::parse::<f64>` of std (used by json-syntax itself for every
+   number that is not a 64-bit integer, src/serde/de.rs visit_number and
+   src/convert/serde_json.rs) and serde_json's streaming parser built with its
+   `float_roundtrip` feature (the front end of from_text; it reports "number out of range"
+   instead of an infinity).  Dependencies that print doubles are modelled, not verified, as
+   section variables:
      fmt_lex   NumberBuf::try_from(f64) on a finite double (lexical write, trim_floats)
-     sj_parse  serde_json's number parser on a spelling that is not a 64-bit integer:
-               Some double, or None for its "number out of range" error
      fmt_ryu   Display of a serde_json float Number (ryu)
    Object::insert is used through its list specification Spec.Multimap.m_insert, which
-   Proofs/ObjectRefine.v proves the indexed object refines.  Panic sites:
+   Proofs/ObjectRefine.v proves the indexed object refines.  Panic site:
      1  `.expect("invalid serde_json::Number")`   (json-number src/serde_json.rs:8)
-     2  `Self::from_f64(n.as_f64_lossy()).unwrap()` (json-number src/serde_json.rs:28) *)
+   (into_serde_json has none: a non-finite double becomes serde_json::Value::Null) *)
 From Coq Require Import SpecFloat.
 From JsonSyntax Require Import Base.Prelude Base.Value Base.Float64 Model.Compare
   Spec.Multimap Spec.NumSpelling Spec.SerdeData Spec.SerdeJsonValue.
@@ -38,20 +41,22 @@ Inductive map_state :=
 | MSNumber (n : option (list N)).
 
 Section SerdeValue.
-  Variable lossy : list N -> spec_float.
   Variable fmt_lex : spec_float -> list N.
-  Variable sj_parse : list N -> option spec_float.
   Variable fmt_ryu : spec_float -> list N.
 
   (* ------------------------------------------------------------------ *)
-  (* impl Serialize for Number (json-number src/serde.rs:13)             *)
+  (* impl Serialize for Value, Number arm (ser.rs): a number with a decimal point or that is
+     an i64 / u64 is delegated to json-number's `impl Serialize for Number` (src/serde.rs:13:
+     one-field struct carrying the spelling, serialize_i64, serialize_u64); any other number
+     (integer syntax outside 64 bits, exponent without fraction) is sent by json-syntax itself
+     as the same one-field struct *)
   Definition emit_number (n : list N) : sd :=
     if has_decimal_point n then SNumStruct n
     else match parse_i64 n with
          | Some z => SI64 z
          | None => match parse_u64 n with
                    | Some z => SU64 z
-                   | None => SFail                  (* custom("number too large") *)
+                   | None => SNumStruct n
                    end
          end.
 
@@ -130,13 +135,13 @@ Section SerdeValue.
   Definition to_value (v : value) : outcome ser_err value := ser (emit v).
 
   (* ------------------------------------------------------------------ *)
-  (* `&Number as Deserializer`::deserialize_any (json-number src/serde.rs:229) *)
+  (* visit_number (de.rs): u64, else i64, else str::parse::<f64> (correctly rounded) *)
   Definition number_events (n : list N) : sd :=
     match parse_u64 n with
     | Some z => SU64 z
     | None => match parse_i64 n with
               | Some z => SI64 z
-              | None => SF64 (lossy n)
+              | None => SF64 (dbl n)
               end
     end.
 
@@ -153,17 +158,14 @@ Section SerdeValue.
 
   (* serde_json::Deserializer::parse_integer / parse_number (de.rs:462-528) on a valid
      number: integer syntax gives U64, or I64 when negative and in range, -0 gives the float
-     -0.0; everything else is a float computed by its own decimal conversion, or the error
-     "number out of range" *)
+     -0.0; everything else is the nearest double (feature float_roundtrip), or the error
+     "number out of range" when that is infinite *)
   Definition sj_number_events (n : list N) : sd :=
     match parse_u64 n with
     | Some z => SU64 z
     | None => match parse_i64 n with
               | Some z => if (z <? 0)%Z then SI64 z else SF64 (S754_zero true)
-              | None => match sj_parse n with
-                        | Some x => SF64 x
-                        | None => SFail
-                        end
+              | None => let x := dbl n in if sf_is_finite x then SF64 x else SFail
               end
     end.
 
@@ -260,19 +262,16 @@ Section SerdeValue.
               (fun ys => Ok (VObj ys))
     end.
 
-  (* impl From<&Number> for serde_json::Number (json-number src/serde_json.rs:20) *)
-  Definition number_into_sj (n : list N) : outcome unit sjnum :=
+  (* into_serde_json, Number arm (convert/serde_json.rs): u64, else i64 (serde_json's
+     From<i64> stores a non-negative one as PosInt), else str::parse::<f64> and
+     serde_json::Value::from(f64), which is Null for a non-finite float *)
+  Definition number_into_sj (n : list N) : sj :=
     match parse_u64 n with
-    | Some z => Ok (PosInt z)
+    | Some z => JNum (PosInt z)
     | None =>
         match parse_i64 n with
-        | Some z => Ok (if (z <? 0)%Z then NegInt z else PosInt z)     (* From<i64> *)
-        | None =>
-            match sj_parse n with
-            | Some x => Ok (SFloat x)
-            | None => let x := lossy n in
-                      if sf_is_finite x then Ok (SFloat x) else Panic 2
-            end
+        | Some z => JNum (if (z <? 0)%Z then NegInt z else PosInt z)
+        | None => let x := dbl n in if sf_is_finite x then JNum (SFloat x) else JNull
         end
     end.
 
@@ -293,7 +292,7 @@ Section SerdeValue.
     match v with
     | VNull => Ok JNull
     | VBool b => Ok (JBool b)
-    | VNum n => obind (number_into_sj n) (fun m => Ok (JNum m))
+    | VNum n => Ok (number_into_sj n)
     | VStr s => Ok (JStr s)
     | VArr l =>
         obind ((fix go (l : list value) : outcome unit (list sj) :=
